@@ -329,16 +329,17 @@ theorem readFile_outcome (Z : Zlib) (hZ : ZOK Z) (cap : Nat) (file : Bytes) :
   split
   · exact Or.inr rfl
   · left
-    have hinv := containerLoop_inv Z hZ cap (file.length + 2)
-      { st := statsReadRest.exec (stickyCfg cap) ((Stmt.rd 0 4).exec (stickyCfg cap) { obj := statsDefault, inp := file }),
-        usize := (statsReadRest.exec (stickyCfg cap) ((Stmt.rd 0 4).exec (stickyCfg cap) { obj := statsDefault, inp := file })).obj.num 1 }
+    generalize statsReadRest.exec (stickyCfg cap) ((Stmt.rd 0 4).exec (stickyCfg cap) { obj := statsDefault, inp := file }) = s2
+    unfold readAfterHeader
+    dsimp only
+    have hinv := containerLoop_inv Z hZ cap (file.length + 2) { st := s2, usize := s2.obj.num 1 }
       ⟨rfl, by intro c hc; cases hc⟩
     generalize containerLoop Z cap (file.length + 2) _ = cs at hinv ⊢
     rw [hinv.1]
     simp only [Bool.false_eq_true, if_false]
     obtain ⟨B, hB⟩ := flattenConts_some cs.conts.reverse (fun c hc => hinv.2 c (by simpa using hc))
     rw [hB]
-    simp only
+    simp only [parseStream]
     rw [objectLoop_outcome cap (4 * B.length + 64) { st := { obj := statsDefault, inp := B } } rfl (by simp) (by simp; omega)]
     rfl
 
